@@ -144,6 +144,7 @@ struct Table
     std::vector<double> y;  // unscaled table value at knot
     std::vector<double> s;  // stored scaled value (= y * x), meaningful for k >= p
     std::vector<double> ux;  // user's knot abscissae (builder realisations)
+    std::vector<double> lg;  // diagnostics: UniformGridData front, back, delta of the log grid
 };
 
 struct Query
@@ -209,8 +210,8 @@ std::vector<Query> make_queries(Table const& t, Rng& rng, bool with_above, bool 
     }
     else
     {
-        q.push_back({"below", 0, x[0] - rng.uni(0, 2)});
-        q.push_back({"below", 0, x[0] - 1e6});
+        q.push_back({"below", 0, x[0] - rng.uni(0.1, 2) - 1e-3 * std::fabs(x[0])});
+        q.push_back({"below", 0, x[0] - 1e6 - std::fabs(x[0])});
     }
     for (int k = 0; k + 1 < n; ++k)
     {
@@ -239,8 +240,8 @@ std::vector<Query> make_queries(Table const& t, Rng& rng, bool with_above, bool 
         }
         else
         {
-            q.push_back({"above", n - 1, x[n - 1] + rng.uni(0, 2)});
-            q.push_back({"above", n - 1, x[n - 1] + 1e6});
+            q.push_back({"above", n - 1, x[n - 1] + rng.uni(0.1, 2) + 1e-3 * std::fabs(x[n - 1])});
+            q.push_back({"above", n - 1, x[n - 1] + 1e6 + std::fabs(x[n - 1])});
         }
     }
     for (int k = 0; k < int(t.ux.size()); ++k)
@@ -397,6 +398,7 @@ void emit_table(verif::NdjsonWriter& w,
             cr.push_back({raw(c.x), raw(c.r), raw(c.v), raw(c.lo), raw(c.hi)});
         rec["raw"]["comp"] = cr;
         rec["raw"]["ux"] = raws(t.ux);
+        rec["raw"]["loggrid_front_back_delta"] = raws(t.lg);
     }
     w(rec);
 }
@@ -470,6 +472,7 @@ Table table_from_store(XsStore const& st, std::string calc, std::string real)
     t.logx = true;
     t.p = t.pu = st.prime();
     t.x = st.knots();
+    t.lg = {st.data.log_energy.front, st.data.log_energy.back, st.data.log_energy.delta};
     auto v = st.values();
     t.y.resize(v.size());
     t.s.resize(v.size());
@@ -679,7 +682,7 @@ void run_generic(verif::NdjsonWriter& w, Rng& rng, int n, std::string const& rea
     for (int i = 0; i < n; ++i)
     {
         x[i] = cur;
-        cur += (real == "gpos") ? cur * rng.uni(0.01, 4) : rng.uni(1e-3, 3);
+        cur += (real == "gpos") ? cur * rng.uni(0.01, std::min(4.0, 60.0 / n)) : rng.uni(1e-3, 3);
     }
     bool mono = (real == "gmono");
     double acc = rng.uni(-2, 2);
@@ -749,9 +752,14 @@ void mode_tables(unsigned long seed, int reps, int nlo, int nhi, std::string con
     {
         for (int n = nlo; n <= nhi; ++n)
         {
-            // ---- hand-made xs tables: every prime position
+            // ---- hand-made xs tables: every prime position (large grids: the distinguished ones)
+            auto skip_prime = [n](int p) {
+                return n > 12 && !(p <= 1 || p >= n - 2 || p == n / 2 || p == n / 3);
+            };
             for (int p = -1; p < n; ++p)
             {
+                if (skip_prime(p))
+                    continue;
                 for (std::string kind : {"rand", "zeros", "steep", "smooth"})
                 {
                     LogGrid g = gen_loggrid(rng, n);
@@ -775,6 +783,8 @@ void mode_tables(unsigned long seed, int reps, int nlo, int nhi, std::string con
                 // ValueGridXsBuilder constructor: prime at any grid point but the last
                 for (int p = 0; p + 1 < n; ++p)
                 {
+                    if (skip_prime(p))
+                        continue;
                     LogGrid g = gen_loggrid(rng, n);
                     auto ue = user_grid(g, n);
                     auto y = gen_values(rng, rep % 2 ? "rand" : "zeros", n);
@@ -793,6 +803,8 @@ void mode_tables(unsigned long seed, int reps, int nlo, int nhi, std::string con
                 // from_geant: lower (unscaled) + upper (scaled) tables joined at the prime energy
                 for (int p = 1; p + 1 < n; ++p)
                 {
+                    if (skip_prime(p))
+                        continue;
                     LogGrid g = gen_loggrid(rng, n);
                     auto ue = user_grid(g, n);
                     auto y = gen_values(rng, "rand", n);
